@@ -297,7 +297,7 @@ int main(int argc, char** argv) {
                         if (b.size() >= 3) tuples.push_back({a, b});
         }
     }
-    std::vector<int> threads = thorough ? std::vector<int>{1, 2, 3, 4, 5, 8, 32} : std::vector<int>{1, 2, 3, 5};
+    std::vector<int> threads = thorough ? std::vector<int>{1, 2, 3, 5, 32} : std::vector<int>{1, 2, 3, 5};
     struct Cfg {
         int splitting, oversampling, mwma, stable, entry;
     };
@@ -315,9 +315,11 @@ int main(int argc, char** argv) {
             for (int o : overs) {
                 cfgs.push_back({sp, o, tlx::MWMA_LOSER_TREE, st, E_FRONT_FORCE});
                 if (light) continue;
-                cfgs.push_back({sp, o, tlx::MWMA_BUBBLE, st, E_BASE});
-                cfgs.push_back({sp, o, tlx::MWMA_LOSER_TREE_COMBINED, st, E_FRONT_MINIMAL});
-                cfgs.push_back({sp, o, tlx::MWMA_LOSER_TREE, st, E_SENTINELS_FORCE});
+                if (o != 2) cfgs.push_back({sp, o, tlx::MWMA_BUBBLE, st, E_BASE});
+                if (o == 10) {
+                    cfgs.push_back({sp, o, tlx::MWMA_LOSER_TREE_COMBINED, st, E_FRONT_MINIMAL});
+                    cfgs.push_back({sp, o, tlx::MWMA_LOSER_TREE, st, E_SENTINELS_FORCE});
+                }
             }
         }
     }
